@@ -22,7 +22,9 @@ type EmitSite struct {
 	StreamID ssa.Value           // value stored in StreamId
 	Wrapper  *ssa.Alloc          // the oneof wrapper literal
 	Payload  map[string]ssa.Value
-	InGo     bool // the enclosing function is only spawned by `go`
+	InGo     bool                         // the enclosing function is only spawned by `go`
+	Bind     map[*ssa.Parameter]ssa.Value // literal built by a constructor helper: its parameters at this call site
+	Via      *ssa.Call                    // the constructor call (nil for literals written at the send)
 }
 
 func (w *World) pbNamed(t types.Type) (string, bool) {
@@ -74,7 +76,7 @@ func (w *World) EmitSites() []*EmitSite {
 		if isGenericTemplate(fn) {
 			continue
 		}
-		allInstrs(fn, func(in ssa.Instruction) {
+		allInstrsLocal(fn, func(in ssa.Instruction) {
 			a, ok := in.(*ssa.Alloc)
 			if !ok {
 				return
@@ -119,7 +121,70 @@ func (w *World) EmitSites() []*EmitSite {
 			out = append(out, es)
 		})
 	}
-	sort.Slice(out, func(i, j int) bool { return out[i].Alloc.Pos() < out[j].Alloc.Pos() })
+	// literals returned by a constructor helper: one emit site per call site whose result reaches a send
+	var inst []*EmitSite
+	for _, es := range out {
+		if es.Send != nil {
+			continue
+		}
+		returned := false
+		allInstrsLocal(es.Fn, func(in ssa.Instruction) {
+			if ret, ok := in.(*ssa.Return); ok {
+				for _, r := range ret.Results {
+					if stripConv(r) == ssa.Value(es.Alloc) {
+						returned = true
+					}
+				}
+			}
+		})
+		if !returned || es.Fn.Parent() != nil {
+			continue
+		}
+		for _, site := range w.callSitesOf(es.Fn) {
+			call, ok := site.(*ssa.Call)
+			if !ok || staticCallee(call) == nil {
+				continue
+			}
+			var send ssa.CallInstruction
+			for _, r := range *call.Referrers() {
+				if ci, ok := r.(ssa.CallInstruction); ok {
+					if k, ok := w.carrierOp(ci); ok && k == "carrier-send" {
+						send = ci
+					}
+				}
+			}
+			if send == nil {
+				continue
+			}
+			cp := *es
+			cp.Fn = call.Parent()
+			cp.Send = send
+			cp.Via = call
+			cp.Bind = map[*ssa.Parameter]ssa.Value{}
+			for i, p := range es.Fn.Params {
+				if i < len(call.Call.Args) {
+					cp.Bind[p] = call.Call.Args[i]
+				}
+			}
+			inst = append(inst, &cp)
+			es.Via = call // mark the template as instantiated
+		}
+	}
+	var final []*EmitSite
+	for _, es := range out {
+		if es.Send == nil && es.Via != nil {
+			continue // replaced by its instantiations
+		}
+		final = append(final, es)
+	}
+	final = append(final, inst...)
+	out = final
+	sort.SliceStable(out, func(i, j int) bool {
+		if out[i].Alloc.Pos() != out[j].Alloc.Pos() {
+			return out[i].Alloc.Pos() < out[j].Alloc.Pos()
+		}
+		return out[i].Send != nil && out[j].Send != nil && out[i].Send.Pos() < out[j].Send.Pos()
+	})
 	return out
 }
 
@@ -137,7 +202,7 @@ func (w *World) Spawns() []*Spawn {
 		if isGenericTemplate(fn) {
 			continue
 		}
-		allInstrs(fn, func(in ssa.Instruction) {
+		allInstrsLocal(fn, func(in ssa.Instruction) {
 			if g, ok := in.(*ssa.Go); ok {
 				out = append(out, &Spawn{fn, g, w.rootCalleesThroughWrappers(g)})
 			}
@@ -189,7 +254,7 @@ func (w *World) FieldAccesses() []*FieldAccess {
 		if isGenericTemplate(fn) {
 			continue
 		}
-		allInstrs(fn, func(in ssa.Instruction) {
+		allInstrsLocal(fn, func(in ssa.Instruction) {
 			switch x := in.(type) {
 			case *ssa.FieldAddr:
 				if !rootStruct(x.X.Type()) {
